@@ -514,6 +514,11 @@ class Planner(object):
                 return
             c.inter += len(val)
             origin = 'c' if (self.in_program and op['e']['k'] == 'lit') else 's'
+            if op['e']['k'] == 'var' and val:
+                src = m.get_slot(op['e']['r']) if m.exists(op['e']['r']) else None
+                if src is not None and src[0] in ('c', 'u'):
+                    # unspecified: whether a string that lives in program text is copied on assignment
+                    origin = 'u'
             slot = [origin, val]
         else:
             if isinstance(val, bytes):
@@ -568,7 +573,7 @@ class Planner(object):
             # unspecified: zero-length replacement at an illegal position
             c.opt.add(5)
         if not 0 <= st <= 255:
-            c.errs.add(5)
+            (c.errs if num > 0 else c.opt).add(5)
         if c.errs:
             p.commit = lambda: None
             return
@@ -721,6 +726,9 @@ class Planner(object):
             p.stmt = 'CLEAR ,%d,%d' % (mem, stack)
 
         def commit():
+            if m.fns_ok:
+                # the DEF FN entries inside F0 are gone now: calibrate again
+                m.f0 = None
             m.reset()
             m.fns_ok = False
             m.field_ok = False
@@ -881,6 +889,7 @@ class Exec(object):
         self.peek_n = cfg.get('peek_n', 2)
         self.sweep_every = cfg.get('sweep_every', 10)
         self.big_every = 8
+        self.had_error = False   # a statement ended in a BASIC error since the last CLEAR
 
     # -- helpers ----------------------------------------------------------
 
@@ -953,11 +962,6 @@ class Exec(object):
             r = d.exec(b'OPTION BASE %d' % cfg['base'])
             if r.err is not None:
                 self.violate('C12', 'setup:option-base-error', 'OPTION BASE %d in a fresh session -> %r' % (cfg['base'], r))
-        if cfg.get('field'):
-            r = d.exec(b'OPEN "R",#1,"C:F.DAT",%d' % cfg['field'])
-            if r.err is not None:
-                raise K.HarnessError('cannot open the FIELD file: %r' % (r,))
-            m.field_ok = True
         if lines:
             lines.append('%d STOP' % n)
             for ln in lines:
@@ -968,12 +972,6 @@ class Exec(object):
                         self.stop = True
                         return
                     raise K.HarnessError('prelude line rejected: %r -> %r' % (ln, r))
-        f0 = self.ev('FRE("")')
-        if f0 is None:
-            run.probe('setup-oom')
-            self.stop = True
-            return
-        m.f0 = int(f0)
         if lines:
             r = d.exec(b'RUN')
             want = b'Break in %d' % n
@@ -986,6 +984,27 @@ class Exec(object):
                 self.stop = True
                 return
             m.fns_ok = bool(cfg.get('fns'))
+            # unspecified: DEF FN may allocate its parameters (and an entry for itself, which stays inside F0)
+            for f in cfg.get('fns', []):
+                for pn in f['p']:
+                    if pn not in m.sc and self.ev('VARPTR(%s)' % pn) is not None:
+                        m.sc[pn] = m.default(pn)
+        if cfg.get('field'):
+            r = d.exec(b'OPEN "R",#1,"C:F.DAT",%d' % cfg['field'])
+            if r.err is not None:
+                if r.err == 7:
+                    run.probe('setup-oom')
+                    self.stop = True
+                    return
+                raise K.HarnessError('cannot open the FIELD file: %r' % (r,))
+            m.field_ok = True
+        f0 = self.ev('FRE("")')
+        if f0 is None:
+            run.probe('setup-oom')
+            self.stop = True
+            return
+        # empty-state free space: what FRE("") would be without the variables the prelude made
+        m.f0 = int(f0) + m.records() + m.live()[0]
         self.readback(None, full=True)
 
     # -- one op -----------------------------------------------------------
@@ -1042,8 +1061,15 @@ class Exec(object):
             run.probe('stmt-ok')
             self.resync(plan, failed=False)
             if kind == 'clear':
+                self.had_error = False
+                if m.base:
+                    # unspecified: whether CLEAR keeps OPTION BASE - say it again, either answer is fine
+                    r2 = self.d.exec(b'OPTION BASE %d' % m.base)
+                    if r2.err not in (None, 10):
+                        self.violate('C12', 'option-base-after-clear:err%d' % r2.err, 'OPTION BASE %d after %r -> %r' % (m.base, plan.stmt, r2))
                 self.after_clear(plan)
             return
+        self.had_error = True
         if len(r.errs) > 1 or r.text.strip():
             self.violate(self.prop, 'output-from-silent-statement:%s' % kind, '%r -> %r' % (plan.stmt, r))
         if err in c.errs or err in c.opt:
@@ -1228,7 +1254,8 @@ class Exec(object):
             if fb is not None:
                 lo, hi, exact = fb
                 if exact and v != lo:
-                    self.violate('C10', 'fre-after-collection:%s-than-reference' % ('less' if v < lo else 'more'),
+                    self.violate('C10', 'fre-after-collection:%s-than-reference:%s' % (
+                        'less' if v < lo else 'more', 'after-failed-statement' if self.had_error else 'no-failed-statement'),
                                  'FRE("") = %d, reference %d = empty-state free %d - records %d - live string bytes %d; %s' % (
                                      v, lo, m.f0, m.records(), m.live()[0], self.history()))
                 elif not lo <= v <= hi:
@@ -1446,17 +1473,20 @@ class Exec(object):
                 order[name] = 'array-first-in-memory' if i == 0 else 'array-later-in-memory'
         ranges = []
         sranges = []
+        later = []
         for r in refs:
-            self.peek_one(r, vs, as_, ae, top, order, ranges, sranges)
+            self.peek_one(r, vs, as_, ae, top, order, ranges, sranges, later)
         for what, rs in (('variable-storage', ranges), ('string-data', sranges)):
             rs.sort()
             for (a0, a1, n0), (b0, b1, n1) in zip(rs, rs[1:]):
                 if b0 < a1:
                     self.violate('C11', 'overlap:%s' % what, '%s occupies [%d,%d) and %s occupies [%d,%d); %s' % (
                         n0, a0, a1, n1, b0, b1, self.history()))
+        for item in later:
+            self.peek_second(*item)
         run.probe('peek-sweeps')
 
-    def peek_one(self, r, vs, as_, ae, top, order, ranges, sranges):
+    def peek_one(self, r, vs, as_, ae, top, order, ranges, sranges, later):
         m, run = self.m, self.run
         name = r['n']
         txt = ref_txt(r)
@@ -1476,6 +1506,23 @@ class Exec(object):
                          'VARPTR(%s) = %d, %d bytes, outside [%d,%d); %s' % (txt, p, size, lo, hi, hist))
         ranges.append((p, p + size, txt))
         run.probe('varptr-checked')
+        raw = self.peekn(p, size)
+        if raw is None:
+            self.violate('C11', 'peek:error', 'PEEK at %d failed; %s' % (p, hist))
+            return
+        # evaluations that allocate a temporary string (and so may start a collection that moves
+        # string data) are left for a second pass, after all addresses of this sweep have been read
+        later.append((r, p, raw, where))
+        if sig == '$':
+            self.peek_string(r, raw, where, ae, top, sranges)
+
+    def peek_second(self, r, p, raw, where):
+        m = self.m
+        name = r['n']
+        txt = ref_txt(r)
+        sig = name[-1]
+        size = SIZES[sig]
+        hist = self.history()
         tight = m.tight(64)
         vps = self.ev('VARPTR$(%s)' % txt)
         want_vps = bytes([size]) + struct.pack('<H', p)
@@ -1484,10 +1531,6 @@ class Exec(object):
                 self.violate('C11', 'varptr$-error', 'VARPTR$(%s) failed; %s' % (txt, hist))
         elif vps != want_vps:
             self.violate('C11', 'varptr$-mismatch', 'VARPTR$(%s) = %r, VARPTR gives %r; %s' % (txt, vps, want_vps, hist))
-        raw = self.peekn(p, size)
-        if raw is None:
-            self.violate('C11', 'peek:error', 'PEEK at %d failed; %s' % (p, hist))
-            return
         if sig != '$':
             mk = self.ev('%s(%s)' % (MK[sig].decode(), txt))
             if mk is None:
@@ -1499,7 +1542,11 @@ class Exec(object):
                                  txt, size - 1, raw, MK[sig].decode(), txt, mk, m.get_value(r), hist))
             if sig == '%' and mk is not None and mk != struct.pack('<h', m.get_value(r)):
                 self.violate('C11', 'mki$-not-value', 'MKI$(%s) = %r, reference value %d; %s' % (txt, mk, m.get_value(r), hist))
-            return
+
+    def peek_string(self, r, raw, where, ae, top, sranges):
+        m = self.m
+        txt = ref_txt(r)
+        hist = self.history()
         want = m.get_value(r)
         slot = m.get_slot(r)
         ln, addr = raw[0], raw[1] + 256 * raw[2]
@@ -1548,6 +1595,19 @@ class Exec(object):
 ###############################################################################
 # run
 
+def crash_chain(e, depth=3):
+    """Exception type + the innermost engine frames, e.g. KeyError@strings.py:_retrieve<view<midset."""
+    frames = []
+    for line in e.tb.splitlines():
+        line = line.strip()
+        if line.startswith('File "') and '/pcbasic/' in line and ', in ' in line:
+            fname = line.split('"')[1].rsplit('/', 1)[1]
+            frames.append((fname, line.rsplit(', in ', 1)[1]))
+    if not frames:
+        return e.signature
+    inner = frames[-depth:][::-1]
+    return '%s@%s:%s' % (e.exc_type, inner[0][0], '<'.join(f for _, f in inner))
+
 def run(case):
     install_gc_seam()
     cfg = case['cfg']
@@ -1561,6 +1621,7 @@ def run(case):
             kw['devices'] = {'C:': root}
             kw['current_device'] = 'C:'
         with w:
+            x = None
             try:
                 d = Driver(w, **kw)
                 gcplan = attach_gc_plan(d, cfg.get('gc', {}))
@@ -1587,8 +1648,13 @@ def run(case):
                 if 'collect_garbage' in e.tb or 'values/strings.py' in e.frame:
                     props = {'C10'}
                 run.res['status'] = 'crash'
+                sig = 'crash:%s' % crash_chain(e)
+                if 'collect_garbage' in sig:
+                    # leaked references surface in the next collection, whatever statement triggers it
+                    sig += ':%s' % ('after-failed-statement' if (x is not None and x.had_error) else 'no-failed-statement')
                 for p in sorted(props):
-                    run.violate(p, 'crash:' + e.signature, '%s: %s (during %r)\n%s' % (e.exc_type, e.exc_msg, e.where, e.tb))
+                    run.violate(p, sig,
+                                '%s: %s (during %r)\n%s' % (e.exc_type, e.exc_msg, e.where, e.tb))
     return execute(case, body, world_cfg={})
 
 
